@@ -95,7 +95,7 @@ fn put_input(sc: &Value, bucket: &str, key: &str, frames: &[String], fail_at: Op
 
 async fn observe(fs: &FileSystem, root: &Path, bucket: &str, key: &str) -> Value {
     // let in-flight blocking file operations of a dropped future finish before looking
-    tokio::time::sleep(Duration::from_millis(15)).await;
+    tokio::time::sleep(Duration::from_millis(40)).await;
     let mut b = GetObjectInput::builder();
     b.set_bucket(bucket.to_owned());
     b.set_key(key.to_owned());
@@ -330,6 +330,22 @@ pub fn batch(workdir: &str, file: &str) -> Value {
         let o = match sc["kind"].as_str().unwrap_or("scenario") {
             "race" => rt.block_on(race(&base, sc)),
             "storm" => rt.block_on(storm(&base, sc)),
+            "drop_sweep" => {
+                // the operation's future is dropped after p polls for p = 1, 2, ... until a run completes: however many polls an
+                // await needs on this machine, every suspension point is the last poll of some run
+                let mut runs = vec![];
+                for p in 1..400u64 {
+                    let mut one = sc.clone();
+                    one["drop_after_polls"] = json!(p);
+                    let o = rt.block_on(scenario(&base, &one));
+                    let done = o["result"] != "dropped";
+                    runs.push(o);
+                    if done {
+                        break;
+                    }
+                }
+                json!({"sweep": runs})
+            }
             _ => rt.block_on(scenario(&base, sc)),
         };
         outs.push(o);
